@@ -46,7 +46,7 @@ def unescape_after_hex_ok(t: str, string: bool) -> bool:
 
 
 TEMPLATES = part([
-    ('', ''), ('[a=', ']'), (':', '('), (':-soup-contains(', ')'), ('\\', ''), ('[a="', ''), ('/*', ''), (':is(', ''),
+    ('', ''), ('[a=', ']'), ('[a~="', '"]'), ('[a|=', ']'), ('[a^="', '"]'), ('[a*=', ']'), (':', '('), (':-soup-contains(', ')'), ('\\', ''), ('[a="', ''), ('/*', ''), (':is(', ''),
     ('a', 'b'), ('#', ''), (':nth-child(', ')'), (':lang(', ')'), ('[', '=b]'), ('a[b', ']'), ('@', ''), ('::', ''),
     (':not(', ')'), ('a', ''), ('.', ''), ('[a', 'b]'), (':nth-child(2n', ')'), (':dir(', ')'), ('a ', ' b'),
     (':has(', ')'), ('[a="x"', ']'), (':--', ''), ('a|', ''), ('*', ''), ('[a=b ', ']'), (':-soup-contains("', '")'),
@@ -167,3 +167,40 @@ def long_numbers_ok(li: int, fi: int) -> bool:
             return ret(isinstance(c, cm.SoupSieve))
         except DOCUMENTED:
             return ret(True)
+
+
+META = ['(', ')', '[', ']', '\\', 'a(b', 'a)b', '*x', '+', '?', '{2}', 'a|b', '^', '$', '.', 'a.b', '(?P<x', '[a-', '\\d', 'w-[10px]',
+        '\\Z', '(?i)x']
+META_OPS = ['=', '~=', '|=', '^=', '$=', '*=', '!=']
+
+
+def attr_meta_ok(mi: int, oi: int, form: int) -> bool:
+    """
+    pre: 0 <= mi < len(META)
+    pre: 0 <= oi < len(META_OPS)
+    pre: 0 <= form <= 3
+    post: _
+    """
+    # regular-expression metacharacters as attribute operands (quoted, inside :not / :is, with a flag): compile never
+    # raises anything undocumented, and the compiled selector matches the operand literally
+    mi, oi, form = concrete(mi), concrete(oi), concrete(form)
+    with notrace():
+        import bs4 as _b
+        v = META[mi].replace('\\\\', '\\')
+        q = '"' + v.replace('\\', '\\\\').replace('"', '\\"') + '"'
+        body = '[t' + META_OPS[oi] + q + ('' if form != 3 else ' i') + ']'
+        pat = (body, ':not(' + body + ')', ':is(p, ' + body + ')', body)[form]
+        try:
+            sv.purge()
+            c = sv.compile(pat)
+        except DOCUMENTED:
+            return ret(False)       # every one of these is a valid selector
+        soup = _b.BeautifulSoup('<p></p>', 'html.parser')
+        soup.p.attrs['t'] = v
+        hit = c.match(soup.p)
+        exp = {'=': True, '~=': True, '|=': True, '^=': True, '$=': True, '*=': True, '!=': False}[META_OPS[oi]]
+        if form == 1:
+            exp = not exp
+        if form == 2:
+            exp = True
+        return ret(bool(hit) == exp)
